@@ -2,7 +2,7 @@
 
 entries "exprE" / "bcastE" of the driver (lean/ALV/Model/C01Exc.lean, Spec/C01Exc.lean): the Lean model is handed a finite
 oracle table `bad` = the applications f(args) (over atom ids) on which python raises, and answers with the outcome of every
-next() call (item / exception / StopIteration), of a script of reads (next / take(k)) and with the applications it asked the
+next() call (item / exception / StopIteration), of a script of reads (next / take(k) / peek(k)) and with the applications it asked the
 oracle about (`queried`).  The table is SETTLED by rounds: start from the empty table; evaluate every queried application
 with python's operator.* on the real elements; add those that raise; ask again — until every queried application is in the
 table iff python raises on it.  (`settle` does the rounds for a whole batch with one driver run per round; `compare`
@@ -233,6 +233,8 @@ def read_script(res, reads):
         try:
             if r[0] == "next":
                 out.append({"one": ["i", B().canon(next(iter(res)))]})
+            elif r[0] == "peek":
+                out.append({"took": {"ok": [B().canon(x) for x in res.peek(r[1])]}})
             else:
                 out.append({"took": {"ok": [B().canon(x) for x in res.take(r[1])]}})
         except StopIteration:
@@ -320,7 +322,10 @@ def compare_expr(c, io, drv):
         for d in _cmp_outs("model", want, c["n"], io["for"], "for loop restarted after each exception"):
             out.append(("model", head + d))
         if c.get("reads"):
-            ws = _until_stop(_script_expect(ev, m["script"]), c["reads"])
+            # the model's script, cut by the model (`untilEnd`: through the first read that meets the end of the data)
+            ws = _script_expect(ev, m["scriptEnd"])
+            if ws != _until_stop(_script_expect(ev, m["script"]), c["reads"]):
+                out.append(("model", head + "harness problem: `untilEnd` of the driver and `_until_stop` disagree on %r" % (c["reads"],)))
             gs = io["script"][:len(ws)]
             if ws != gs:
                 k = _first_diff(ws, gs)
@@ -334,6 +339,13 @@ def compare_expr(c, io, drv):
         want = [expect_out(ev, o) for o in spec["outsP"]]
         for d in _cmp_outs("spec", want, c["n"], io["next"], "next() in try/except"):
             out.append(("spec", head + d))
+        if c.get("reads") and spec.get("scriptCost", 0) <= c["n"]:
+            # the script as a function of the element-by-element outcomes (`scriptOuts`, theorem exc_script_eval)
+            ws = _script_expect(ev, spec["scriptP"])
+            gs = io["script"][:len(ws)]
+            if ws != gs:
+                k = _first_diff(ws, gs)
+                out.append(("spec", head + "script %r differs at read #%d: impl %s vs spec %s" % (c["reads"], k, gs[k:k + 1], ws[k:k + 1])))
     return out
 
 
@@ -554,7 +566,8 @@ def rand_reads(rng, n):
             k = rng.choice([1, 2, 2, 3, 4])
             if used + k > n:
                 break
-            out.append(["take", k])
+            # `peek(k)` = `copy().take(k)`: costs k calls of the budget like `take(k)` (theorem exc_script: readsCost)
+            out.append(["peek" if rng.random() < 0.3 else "take", k])
             used += k
     return out
 
@@ -752,7 +765,7 @@ def generate_bcast(rng, tier, scale=1):
 
 
 def generate(rng, tier, scale=1):
-    cases = generate_expr(rng, tier, scale) + generate_bcast(rng, tier, scale) + generate_meta(rng, tier, scale)
+    cases = generate_expr(rng, tier, scale) + generate_bcast(rng, tier, scale) + generate_meta(rng, tier, scale) + generate_opget(rng, tier, scale)
     try:
         settle(cases)
     except Exception:
@@ -775,6 +788,8 @@ def tally(eng, c, io):
         eng.count("exc_shape", c.get("shape", "?"))
         eng.count("exc_root", p.get("d", p["k"] + (":" + p["l"] if p["k"] == "meth" else "")))
         eng.count("exc_oracle_table_size", min(len(c.get("bad", [])), 12))
+        for r, o in zip(c.get("reads", []), io.get("script", []) if isinstance(io, dict) else []):
+            eng.count("exc_script_read_kind", r[0] + (": raised" if "err" in o.get("took", {}) or o.get("one", [""])[0] == "r" else ""))
         if "err" in io:
             eng.count("exc_impl_refusal", io["err"])
             return
@@ -950,6 +965,116 @@ def generate_meta(rng, tier, scale=1):
         cases.append({"entry": "meta", "ops": rng.choice(ops_pool), "without": rng.choice(wo_pool), "form": rng.choice(["str", "list"]),
                       "have": [k for k in kinds if rng.random() < 0.65], "ns": rng.choice(ns_pool)})
     return cases
+
+
+# ------------------------------------------------------------------------------------------------
+# opget: the lookup API `OpMethod.get(key, without)` against `getOpsK` (model) and the "entries filed under the keys,
+# minus those under a `without` key" (spec, theorem opget_spec); keys: {"s": string} | {"f": operator dunder} | {"i": int}
+# ------------------------------------------------------------------------------------------------
+def _opkey(k):
+    import operator
+    if "s" in k:
+        return k["s"]
+    if "f" in k:
+        return getattr(operator, k["f"])
+    return k["i"]
+
+
+def _opquery(keys, form, rng_ws=" "):
+    vals = [_opkey(k) for k in keys]
+    if form == "str" and vals and all(isinstance(v, str) for v in vals):
+        return rng_ws.join(vals)
+    if form == "bare" and len(vals) == 1:
+        return vals[0]
+    if form == "tuple":
+        return tuple(vals)
+    if form == "gen":
+        return (v for v in vals)
+    return vals
+
+
+def impl_opget(c):
+    from audiolazy.lazy_core import OpMethod
+    key = _opquery(c["keys"], c.get("form", "list"), c.get("ws", " "))
+    wo = _opquery(c["without"], c.get("wform", "list")) if (c["without"] or c.get("wform") == "list0") else None
+    try:
+        g = OpMethod.get(key, without=wo)
+        res = list(g)
+    except Exception as e:
+        return {"err": err_kind(e)}
+    return {"ops": [[op.dname, op.name, op.symbol] for op in res],
+            "all_opmethod": all(isinstance(op, OpMethod) for op in res)}
+
+
+def compare_opget(c, io, drv):
+    out = []
+    head = "list(OpMethod.get(%r, without=%r)) [%s/%s]: " % (c["keys"], c["without"], c.get("form", "list"), c.get("wform", "list"))
+    for label in ("model", "spec"):
+        side = drv[label]
+        if "err" in side:
+            if io.get("err") != side["err"]:
+                out.append((label, head + "%s predicts %s, impl: %r" % (label, side["err"], io.get("err", io.get("ops")))))
+        elif "err" in io:
+            out.append((label, head + "impl raised %s, %s predicts %r" % (io["err"], label, [o[0] for o in side["ops"]])))
+        elif side["ops"] != io["ops"]:
+            k = _first_diff(side["ops"], io["ops"])
+            out.append((label, head + "differs at #%d: impl %r (%d entries) vs %s %r (%d entries)" % (
+                k, io["ops"][k:k + 1], len(io["ops"]), label, side["ops"][k:k + 1], len(side["ops"]))))
+    return out
+
+
+OPGET_STR = ["all", "r", "1", "2", "+", "-", "*", "/", "//", "%", "**", "@", ">>", "<<", "~", "&", "|", "^", "<", "<=", "==", "!=",
+             ">", ">="]
+OPGET_BAD = ["div", "__div__", "rdiv", "__rdiv__", "foo", "__add", "add__", "3", "0", "", "rlt", "__rlt__", "rpos", "R", "All",
+             "__radd", "rrrshift", "abs", "__abs__", "not", "++"]
+OPGET_FUNCS_BAD = ["__abs__", "__not__", "__index__", "__concat__", "__contains__", "__iadd__"]
+
+
+def generate_opget(rng, tier, scale=1):
+    from audiolazy.lazy_core import OpMethod
+    names = []
+    for op in OpMethod.get("all"):
+        names += [op.name, op.dname]
+    funcs = sorted(set("__%s__" % n for n in B().ARITH) | set(["__lt__", "__le__", "__eq__", "__ne__", "__gt__", "__ge__", "__pos__",
+                                                               "__neg__", "__invert__"]))
+    import operator
+    funcs = [f for f in funcs if hasattr(operator, f)]
+    good = [{"s": k} for k in OPGET_STR + names] + [{"f": f} for f in funcs] + [{"i": 1}, {"i": 2}]
+    bad = [{"s": k} for k in OPGET_BAD if k.split() == [k]] + [{"f": f} for f in OPGET_FUNCS_BAD] + [{"i": 0}, {"i": 3}, {"i": 35}]
+    cases = []
+    if scale == 1:
+        # exhaustive: every documented key alone (every form), every known-bad key alone, every key as `without` of "all"
+        for k in good + bad:
+            for form in ("list", "bare", "str"):
+                cases.append({"entry": "opget", "keys": [k], "without": [], "form": form, "wform": "list"})
+            cases.append({"entry": "opget", "keys": [{"s": "all"}], "without": [k], "form": "bare", "wform": "bare"})
+        cases.append({"entry": "opget", "keys": [], "without": [], "form": "list", "wform": "list"})
+        cases.append({"entry": "opget", "keys": [], "without": [], "form": "list", "wform": "list0"})
+        # the docstring's examples
+        for keys, wo in [(["*"], []), ([">>"], []), (["__add__"], []), (["rsub"], []), (["%"], []), (["+"], []), (["<<", ">>"], []),
+                         (["<<", ">>"], ["r"]), (["all"], [])]:
+            cases.append({"entry": "opget", "keys": [{"s": k} for k in keys], "without": [{"s": k} for k in wo], "form": "str", "wform": "str"})
+        cases.append({"entry": "opget", "keys": [{"s": "+"}, {"s": "&"}], "without": [{"f": "__add__"}, {"s": "r"}], "form": "list", "wform": "list"})
+        cases.append({"entry": "opget", "keys": [{"i": 2}], "without": [{"s": "-"}, {"s": "+"}, {"s": "*"}, {"s": "%"}, {"s": "r"}],
+                      "form": "bare", "wform": "list"})
+        cases.append({"entry": "opget", "keys": [{"f": "__add__"}], "without": [], "form": "bare", "wform": "list"})
+    for _ in range((250 if tier == "quick" else 4000) * scale):
+        nk = rng.choice([1, 2, 2, 3, 4])
+        keys = [rng.choice(good) if rng.random() < 0.93 else rng.choice(bad) for _ in range(nk)]
+        wo = [rng.choice(good) if rng.random() < 0.93 else rng.choice(bad) for _ in range(rng.choice([0, 0, 1, 1, 2, 3]))]
+        cases.append({"entry": "opget", "keys": keys, "without": wo, "form": rng.choice(["list", "str", "tuple", "gen", "bare"]),
+                      "wform": rng.choice(["list", "str", "tuple", "bare"]), "ws": rng.choice([" ", "  ", "\t", " \n "])})
+    return cases
+
+
+def tally_opget(eng, c, io):
+    eng.count("opget_outcome", ("raised:%s" % io["err"]) if "err" in io else "%d entries" % min(len(io["ops"]), 36))
+    for k in c["keys"]:
+        eng.count("opget_key_kind", "str" if "s" in k else "func" if "f" in k else "int")
+    eng.count("opget_without", len(c["without"]))
+    eng.count("opget_form", c.get("form", "list") + "/" + c.get("wform", "list"))
+    if "ops" in io and len(io["ops"]) != len(set(tuple(o) for o in io["ops"])):
+        eng.count("opget_duplicates", "an entry matched twice comes twice")
 
 
 def tally_meta(eng, c, io):
